@@ -3,22 +3,87 @@
 (* Two-trace refinement (engine E6): the same harness program compiled     *)
 (* twice -- a baseline build and a variant build -- must produce traces    *)
 (* that are related event by event.                                        *)
-(*   MODE = "config" (C15): every event of the variant must be identical   *)
-(*        to the baseline event (same op, same inputs, same result bits).  *)
+(*   mode "config" (C15): every event of the variant must be identical to  *)
+(*   the baseline event: same operation, same inputs, same result VALUES.  *)
+(* Identity is on values, which is bit identity except for what IEEE-754   *)
+(* leaves open and no build setting of GLM controls:                       *)
+(*   - a NaN result equals any other NaN result (payload and sign of a     *)
+(*     NaN produced by an operation depend on instruction selection);      *)
+(*   - for the min/max/clamp families +0 and -0 are the same value (which  *)
+(*     zero minss/fmin returns depends on operand order chosen by the      *)
+(*     optimiser);                                                         *)
+(*   - events of the fmin/fmax/fclamp families that see a signalling NaN   *)
+(*     are outside the domain (libm and inline expansions differ).         *)
 (* The baseline trace itself is judged absolutely by the trace             *)
-(* specification of the property it belongs to; identity with an accepted  *)
-(* trace is acceptance by the same specification.                          *)
+(* specification of the property it belongs to.                            *)
 (***************************************************************************)
-EXTENDS Naturals, Sequences, TLC, Json, IOUtils
+EXTENDS Words, TLC, Json, IOUtils
 VARIABLE l
 TraceA == ndJsonDeserialize(IOEnv.TRACE)
 TraceB == ndJsonDeserialize(IOEnv.TRACE_B)
 Bump(r) == TLCSet(r, TLCGet(r) + 1)
 Init == l = 1 /\ TLCSet(1, 0) /\ TLCSet(2, 0) /\ TLCSet(3, 0) /\ TLCSet(4, 0)
-Same(a, b) == a = b
+
+ResultKeys == {"r", "s", "u", "v", "v2", "i", "c", "msb", "lsb", "p", "p2", "e"}
+MinMaxFamily == {"min", "max", "fmin", "fmax", "clamp", "fclamp", "clampraw", "min3", "max3", "fmin3", "fmax3", "min4", "max4", "fmin4", "fmax4",
+                 "compMin", "compMax", "texClamp"}
+NaNFamily == {"fmin", "fmax", "fclamp", "fmin3", "fmax3", "fmin4", "fmax4"}
+FnOf(ev) == IF "f" \in DOMAIN ev THEN ev.f ELSE IF "op" \in DOMAIN ev THEN ev.op ELSE ""
+TypeOf(ev) == IF "t" \in DOMAIN ev THEN ev.t ELSE ""
+IsNaN32(w) == Len(w) = 2 /\ (w[2] % 32768) \div 128 = 255 /\ ((w[2] % 128) > 0 \/ w[1] > 0)
+IsNaN64(w) == Len(w) = 4 /\ (w[4] % 32768) \div 16 = 2047 /\ ((w[4] % 16) > 0 \/ w[3] > 0 \/ w[2] > 0 \/ w[1] > 0)
+IsSNaN32(w) == IsNaN32(w) /\ (w[2] % 128) \div 64 = 0
+IsSNaN64(w) == IsNaN64(w) /\ (w[4] % 16) \div 8 = 0
+IsNaNW(t, w) == (t = "f32" /\ IsNaN32(w)) \/ (t = "f64" /\ IsNaN64(w))
+IsSNaNW(t, w) == (t = "f32" /\ IsSNaN32(w)) \/ (t = "f64" /\ IsSNaN64(w))
+IsZeroW(t, w) == (t = "f32" /\ Len(w) = 2 /\ w[1] = 0 /\ w[2] % 32768 = 0) \/ (t = "f64" /\ Len(w) = 4 /\ w[1] = 0 /\ w[2] = 0 /\ w[3] = 0 /\ w[4] % 32768 = 0)
+\* a logged value is a sequence of components, each a sequence of limbs
+IsComp(w) == DOMAIN w = 1..Len(w) /\ Len(w) \in 1..4 /\ \A i \in 1..Len(w) : w[i] \in Nat
+NormComp(t, zf, w) == IF IsNaNW(t, w) THEN <<"nan">> ELSE IF zf /\ IsZeroW(t, w) THEN <<"zero">> ELSE w
+NormVal(t, zf, v) == [i \in 1..Len(v) |-> NormComp(t, zf, v[i])]
+Norm(ev) == LET t == TypeOf(ev) zf == FnOf(ev) \in MinMaxFamily
+            IN IF t \notin {"f32", "f64"} THEN ev
+               ELSE [k \in DOMAIN ev |-> IF k \in ResultKeys THEN NormVal(t, zf, ev[k]) ELSE ev[k]]
+SeesSNaN(ev) == "a" \in DOMAIN ev /\ \E k \in 1..Len(ev.a) : \E i \in 1..Len(ev.a[k]) : IsSNaNW(TypeOf(ev), ev.a[k][i])
+OutOfDomain(ev) == FnOf(ev) \in NaNFamily /\ SeesSNaN(ev)
+Same(a, b) == a = b \/ ("a" \in DOMAIN a /\ "a" \in DOMAIN b /\ a.a = b.a /\ FnOf(a) = FnOf(b) /\ (OutOfDomain(a) \/ Norm(a) = Norm(b)))
+(* Recorded deviations (known_findings.json), only for variants whose language level selects GLM's bundled pre-C++11
+   bodies (KIND = "fallback": GLM_FORCE_CXX98 / CXX03):
+     KD-C15-cxx98-libm-fallbacks  asinh/acosh/atanh/log2/exp2 are computed from log/sqrt/pow formulas instead of the libm
+                                  functions (and asech/acsch/acoth are built on them): results within 2048 ulp of the baseline (exp2(x) = exp(x ln 2) loses about |x| ulp, |x| <= 1024),
+                                  or a zero of the other sign, or within 16 eps absolutely (cancellation near 0 / 1)
+     KD-C15-cxx98-fma-unfused     fma(a, b, c) is a * b + c with two roundings instead of std::fma: the variant result is
+                                  exactly FAdd(FMul(a, b), c)                                                            *)
+Kind == IF "KIND" \in DOMAIN IOEnv THEN IOEnv.KIND ELSE "std"
+FallbackLibm == {"asinh", "acosh", "atanh", "log2", "exp2", "asech", "acsch", "acoth"}
+UlpBudget == 2048       \* exp2 through exp(x ln 2) loses |x| ulp; the other formulas stay within 4
+OrdDist(f, w, v) == ZAbs(ZSub(OrdC(f, Fields(f, w)), OrdC(f, Fields(f, v))))
+NearF(t, w, v) == LET f == TypeFmt(t) IN Len(w) = TypeLimbs(t) /\ Len(v) = TypeLimbs(t) /\ ~IsNaNW(t, w) /\ ~IsNaNW(t, v) /\ ZLe(OrdDist(f, w, v), ZFromInt(UlpBudget))
+NearW(t, w, v) == w = v \/ (IsNaNW(t, w) /\ IsNaNW(t, v)) \/ (t \in {"f32", "f64"} /\ NearF(t, w, v))
+\* the log/sqrt formulas cancel near 0 (asinh, atanh) and near 1 (acosh): there the error is absolute, 16 eps
+AbsNear(t, w, v) == LET f == TypeFmt(t) a == Fields(f, w) b == Fields(f, v)
+                    IN Len(w) = TypeLimbs(t) /\ Len(v) = TypeLimbs(t) /\ IsFinite(f, a) /\ IsFinite(f, b) /\ DLe(DAbs(DSub(Val(f, a), Val(f, b))), DMul2k(Eps(f), 4))
+NearAll(t, x, y) == Len(x) = Len(y) /\ \A i \in 1..Len(x) : NearW(t, x[i], y[i]) \/ AbsNear(t, x[i], y[i])
+CompOf(arg, i) == IF Len(arg) = 1 THEN arg[1] ELSE arg[i]
+UnfusedVal(f, ev, i) ==          \* FAdd(FMul(a, b), c) for component i; << >> when not finite
+    LET a == Fields(f, CompOf(ev.a[1], i)) b == Fields(f, CompOf(ev.a[2], i)) c == Fields(f, CompOf(ev.a[3], i))
+    IN IF IsFinite(f, a) /\ IsFinite(f, b) /\ IsFinite(f, c) /\ IsFinite(f, FMul(f, a, b)) THEN FAdd(f, FMul(f, a, b), c) ELSE [s |-> 2, e |-> 0, m |-> << >>]
+UnfusedOK(f, base, var, ev, i) ==
+    \/ NearW(IF f = F32 THEN "f32" ELSE "f64", base, var) /\ base = var
+    \/ LET u == UnfusedVal(f, ev, i) r == Fields(f, var) IN u.s = 2 \/ (IsZero(f, u) /\ IsZero(f, r)) \/ r = u
+UnfusedFma(t, ea, eb) ==
+    LET f == TypeFmt(t) IN
+    /\ \A i \in 1..Len(eb.r) : UnfusedOK(f, ea.r[i], eb.r[i], eb, i)
+    /\ ("s" \notin DOMAIN eb \/ \A i \in 1..Len(eb.s) : UnfusedOK(f, ea.s[i], eb.s[i], eb, i))
+KnownDeviation(a, b) ==
+    IF Kind # "fallback" \/ ~("a" \in DOMAIN a /\ "a" \in DOMAIN b /\ a.a = b.a /\ "r" \in DOMAIN a /\ "r" \in DOMAIN b) THEN ""
+    ELSE IF FnOf(a) \in FallbackLibm /\ NearAll(TypeOf(a), a.r, b.r) /\ ("s" \notin DOMAIN a \/ NearAll(TypeOf(a), a.s, b.s)) THEN "KD-C15-cxx98-libm-fallbacks"
+    ELSE IF FnOf(a) = "fma" /\ TypeOf(a) \in {"f32", "f64"} /\ Len(a.a) = 3 /\ UnfusedFma(TypeOf(a), a, b) THEN "KD-C15-cxx98-fma-unfused"
+    ELSE ""
 Next == /\ l <= Len(TraceA)
         /\ IF l <= Len(TraceB) /\ Same(TraceA[l], TraceB[l]) THEN Bump(3)
-           ELSE Bump(3) /\ Bump(1) /\ PrintT(<<"MISMATCH", l, IF "op" \in DOMAIN TraceA[l] THEN TraceA[l].op ELSE "marker">>)
+           ELSE IF l <= Len(TraceB) /\ KnownDeviation(TraceA[l], TraceB[l]) # "" THEN Bump(3) /\ Bump(2) /\ PrintT(<<"KNOWN", KnownDeviation(TraceA[l], TraceB[l]), l>>)
+           ELSE Bump(3) /\ Bump(1) /\ PrintT(<<"MISMATCH", l, FnOf(TraceA[l])>>)
         /\ l' = l + 1
 Spec == Init /\ [][Next]_l
 Accepted == PrintT(<<"SUMMARY", TLCGet(3), TLCGet(1) + (IF Len(TraceA) = Len(TraceB) THEN 0 ELSE 1), TLCGet(2), TLCGet(4)>>)
